@@ -44,7 +44,7 @@ PROPS_LL = {
     },
     'C15': {
         'engine': 'eqsim_ll',
-        'quick': {'runs': 2000, 'steps': (6, 16), 'deadline_s': 90, 'chunk': 10, 'seed': 15, 'fault_rate': 0.4,
+        'quick': {'runs': 2000, 'steps': (6, 16), 'deadline_s': 120, 'chunk': 10, 'seed': 15, 'fault_rate': 0.4,
                   'min_fraction': 0.05},
         'thorough': {'runs': 60000, 'steps': (6, 20), 'deadline_s': 900, 'chunk': 25, 'seed': 1015,
                      'fault_rate': 0.4},
